@@ -17,6 +17,7 @@ ASSUMPTIONS = {
  'A13': 'A13 radical.utils.lazy_bisect(data, check=..) (a dependency, not part of /repo): calls check at most once per element and nothing else that touches the scheduler, and returns three lists partitioning data into accepted / refused-or-skipped / raised; the scheduler-state summary after it composes the verified contract of _try_allocation over that call sequence (induction over the calls, not machine-checked)',
  'A14': 'A14 the command lines of the external launchers mean what their documentation says: mpirun -np N -host h1,..,hN starts N processes, one per listed host entry (MPT: -np per listed host); aprun / ccmrun -n N starts N; ssh / rsh <host> runs one process on host; mpiexec -np with --hostfile / -f / -rf, srun --ntasks --nodes --nodelist / --nodefile, prun --np --host h:k, ibrun -n as read by harness/lm_sim.py',
  'A15': 'A15 strings are identifiers: str.split / strip / startswith / in, os.path.basename and radical.utils.Url parsing are uninterpreted functions; the contracts pin which of their results go where, not what they compute',
+ 'A16': 'A16 /bin/bash executes the generated text as POSIX sh semantics say; only the FORK launch method can run in the sandbox, so the MPI launchers\' rank variables are not exercised',
  'A11': 'A11 pyvc, z3 and cvc5 are the trusted computing base (canaries, cover checks, self-test edits and the CPython cross-check are the guards)',
 }
 
@@ -261,6 +262,21 @@ PROPS['C11'] = dict(
              'every action is carried out (transfer, copy, link, move, tarball)': 'P (agent dispatch) + B (files exist with content)',
              'outputs of a failed task only with stage_on_error': 'P (client triage loop) + B',
              'a directive that cannot be carried out fails that task only': 'B'})
+
+PROPS['C10'] = dict(
+    level='other',
+    claim='the pieces the launch and exec scripts are assembled from are proved to put the described values into the right slots, for every task: LaunchMethod.get_exec / _create_arg_string (the described executable followed by every described argument, quoted once, in order), _get_exec (that command is run once, waited for, its exit code kept in RP_RET), _get_launch (the launch command once, stdout / stderr redirected to the described files, exit code kept), _get_prep_exec (every pre / post command guarded by `|| rp_error`, i.e. a failing one ends the script before what follows; list form), _get_rp_env (every RP_* variable carries the documented value: ids, sandboxes, cores / GPUs per rank, registry and control publisher / subscriber addresses). That bash, given the assembled scripts, reproduces argv, environment, working directory, stdio files, ordering, per-rank entries and exit codes is decided by executing generated scripts (bounded). Two genuine defects were found and repaired (RP_CONTROL_SUB_ADDRESS, double quotes in environment values)',
+    note='strings are identifiers in the contracts (A15): what bash does with the text is only observed by the bounded run; variable references ($X, `cmd`) in arguments and environment values are expanded by the shell by design (ru.sh_quote / double quotes) and are not part of the bounded inputs; per-rank dictionaries in pre_exec / post_exec, _get_task_env and the assembly order in _create_exec_script / _create_launch_script are covered by the bounded run only; only the FORK launch method runs in the sandbox',
+    assumptions=['A2', 'A4', 'A9', 'A10', 'A11', 'A15', 'A16'],
+    trusted_base=['/bin/bash', 'radical.utils.sh_quote (uninterpreted in the contracts; exercised by the bounded run)'],
+    explanation='function-against-spec contracts: result == the documented text over the task; bounded execution of generated scripts with a probe executable',
+    bounded=[dict(name='task-scripts', cmd=['harness/run_bounded.py', 'task-scripts'], timeout=900)],
+    clauses={'described executable with exactly the described argument list': 'P (text) + B (argv observed)',
+             'described environment variables': 'B',
+             'RP_* variables describing the task': 'P (_get_rp_env) + B',
+             'stdout / stderr in the described files': 'P (_get_launch) + B',
+             'pre before, post after, per-rank entries on their rank': 'B (P for the guard of each command)',
+             'failing pre_exec prevents the executable; exit code is the executable\'s unless pre/post failed': 'P (guards, RP_RET) + B'})
 
 PROPS['C05'] = dict(
     level='other',
